@@ -130,6 +130,7 @@ def build_lib(variant="real", sanitize=True):
         os.makedirs(os.path.join(libdir, "obj"))
         with open(os.path.join(libdir, "include", "pomerol", "first_include.h"), "w") as f:
             f.write(_first_include(variant))
+        shutil.copy(os.path.join(REPO, "include", "pomerol.h.in"), os.path.join(libdir, "include", "pomerol.h"))
         srcs = sorted(glob.glob(os.path.join(REPO, "src", "pomerol", "*.cpp")) +
                       glob.glob(os.path.join(REPO, "src", "mpi_dispatcher", "*.cpp")))
         inc = include_flags(libdir)
